@@ -28,8 +28,10 @@ class Deadlock(Exception):
 class SchedLock:
     """Scheduler-aware replacement for threading.Lock / RLock."""
 
-    def __init__(self, sched, reentrant, name):
+    def __init__(self, sched, reentrant, name, group=None):
         self.sched, self.reentrant, self.name = sched, reentrant, name
+        self.group = name if group is None else group     # locks of one object share a group
+        sched.group_locks.setdefault(self.group, set()).add(name)
         self.owner = None
         self.count = 0
 
@@ -49,6 +51,7 @@ class SchedLock:
         else:
             self.count += 1
         s.held[tid] = s.held.get(tid, 0) + 1
+        s.group_holders.setdefault(self.group, {})[tid] = s.group_holders.get(self.group, {}).get(tid, 0) + 1
         return True
 
     def release(self):
@@ -59,6 +62,11 @@ class SchedLock:
             self.owner, self.count = None, 0
         if tid is not None:
             s.held[tid] = s.held.get(tid, 0) - 1
+            g = s.group_holders.get(self.group, {})
+            if tid in g:
+                g[tid] -= 1
+                if g[tid] <= 0:
+                    del g[tid]
             s.yield_point(tid, ("rel", self.name))
 
     __enter__ = acquire
@@ -78,9 +86,13 @@ class Scheduler:
         self.finished = set()
         self.tids = {}
         self.held = {}
+        self.group_holders = {}              # lock group (object) -> {tid: holds}
+        self.group_locks = {}                # lock group (object) -> names of its instrumented locks
         self.trace = []                      # (chosen tid, enabled tids)
         self.errors = {}
         self.deadlock = False
+        self.stalled = None          # tid that was given the turn and never reached another yield point
+        self.stall_limit = 3.0
 
     def current_tid(self):
         return self.tids.get(threading.get_ident())
@@ -105,8 +117,17 @@ class Scheduler:
         targets = self.targets
 
         def local(frame, event, arg):
-            if event == "line" and self.held.get(tid, 0) == 0:
-                self.yield_point(tid, ("line", frame.f_lineno))
+            if event == "line":
+                if self.held.get(tid, 0) == 0:
+                    self.yield_point(tid, ("line", frame.f_lineno))
+                else:
+                    # inside a critical section lines are not yield points - unless the object has MORE THAN ONE
+                    # lock: then two of its critical sections need not be mutually exclusive and must be
+                    # interleaved line by line
+                    for g, holders in self.group_holders.items():
+                        if tid in holders and len(self.group_locks.get(g, ())) > 1:
+                            self.yield_point(tid, ("line*", frame.f_lineno))
+                            break
             return local
 
         def glob(frame, event, arg):
@@ -155,9 +176,20 @@ class Scheduler:
         step = 0
         with self.cv:
             while True:
-                # wait until every unfinished thread is parked at a yield point
+                # wait until every unfinished thread is parked at a yield point; a thread that does not come back
+                # is blocked on something the scheduler does not control (an un-instrumented lock, a sleep ...)
+                waited = 0.0
                 while self.turn is not None or len(self.waiting) + len(self.finished) < n:
-                    self.cv.wait(0.5)
+                    self.cv.wait(0.25)
+                    waited += 0.25
+                    if waited > self.stall_limit:
+                        self.stalled = self.turn
+                        break
+                if self.stalled is not None:
+                    self.deadlock = True
+                    self.trace.append((None, sorted(self.waiting)))
+                    self.cv.notify_all()
+                    break
                 if len(self.finished) == n:
                     break
                 enabled = sorted(t for t, lk in self.waiting.items() if lk is None or lk.available_to(t))
